@@ -194,7 +194,18 @@ def power(a, b):
     return UF2["powr"](to_real(a), to_real(b))
 
 
+def _is_inf(v):
+    return is_sym(v) and v.eq(INF)
+
+
 def cmp(op, a, b):
+    # np.inf: every other real of the model is finite (assumption, DESIGN §2.3)
+    if _is_inf(a) or _is_inf(b):
+        if _is_inf(a) and _is_inf(b):
+            return op in ("==", "<=", ">=")
+        if _is_inf(b):
+            return op in ("<", "<=", "!=")
+        return op in (">", ">=", "!=")
     a, b = _b2n(a) if not is_boolish(a) or is_num(b) else a, _b2n(b) if not is_boolish(b) or is_num(a) else b
     if not is_sym(a) and not is_sym(b):
         return {"<": a < b, "<=": a <= b, ">": a > b, ">=": a >= b, "==": a == b,
@@ -557,8 +568,29 @@ def make_first(lo, hi, bv, body):
     return d.f(to_z3(lo), to_z3(hi), *params)
 
 
+class ArgmaxDef:
+    """first index in [lo,hi) at which val attains its maximum over the indices with valid(.)"""
+    registry = {}
+
+    def __init__(self, bv, val, valid, params):
+        self.bv, self.body, self.valid, self.params = bv, val, valid, list(params)
+        self.f = z3.Function(Fresh.name("Argmax"), IntS, IntS, *[p.sort() for p in self.params], IntS)
+        ArgmaxDef.registry[self.f.get_id()] = self
+
+    def at(self, term, app, k):
+        subs = [(self.bv, to_z3(k))] + list(zip(self.params, app.children()[2:]))
+        return z3.substitute(term, *subs)
+
+
+def make_argmax(lo, hi, bv, val, valid):
+    cs = {c.get_id(): c for c in free_consts(val) + free_consts(valid) if not c.eq(bv)}
+    params = sorted(cs.values(), key=lambda c: c.decl().name())
+    d = ArgmaxDef(bv, val, valid, params)
+    return d.f(to_z3(lo), to_z3(hi), *params)
+
+
 def defined_function_ids():
-    return set(SumDef.registry) | set(ExtDef.registry) | set(FirstDef.registry)
+    return set(SumDef.registry) | set(ExtDef.registry) | set(FirstDef.registry) | set(ArgmaxDef.registry)
 
 
 def ext_axioms(terms):
@@ -580,6 +612,15 @@ def ext_axioms(terms):
             ax.append(z3.And(x >= lo, z3.Implies(hi >= lo, x <= hi), z3.Implies(hi < lo, x == lo)))
             ax.append(z3.ForAll([j], z3.Implies(z3.And(lo <= j, j < x), z3.Not(d.body_at(x, j)))))
             ax.append(z3.Implies(x < hi, d.body_at(x, x)))
+        elif z3.is_app(x) and x.decl().get_id() in ArgmaxDef.registry:
+            d = ArgmaxDef.registry[x.decl().get_id()]
+            lo, hi = x.arg(0), x.arg(1)
+            j, e = Fresh.int("j"), Fresh.int("e")
+            some = z3.Exists([e], z3.And(lo <= e, e < hi, d.at(d.valid, x, e)))
+            ax.append(z3.Implies(some, z3.And(
+                lo <= x, x < hi, d.at(d.valid, x, x),
+                z3.ForAll([j], z3.Implies(z3.And(lo <= j, j < hi, d.at(d.valid, x, j)), d.at(d.body, x, j) <= d.at(d.body, x, x))),
+                z3.ForAll([j], z3.Implies(z3.And(lo <= j, j < x, d.at(d.valid, x, j)), d.at(d.body, x, j) < d.at(d.body, x, x))))))
     return ax
 
 
@@ -592,47 +633,69 @@ def sum_apps(terms):
     return out
 
 
-def sum_axioms(terms, rounds=2):
+def sum_axioms(terms, rounds=1, done=None, signs=True, pairs=True):
     """Instances of the lemma schemas (DESIGN §2.7) for the Sum applications in `terms`:
-    empty, sum_nonneg / sum_nonpos (skolemised antecedent), sum_congr for pairs (skolemised),
-    sum_zero.  All instances are valid statements about finite sums."""
+      empty          hi <= lo -> S == 0
+      sign           (body(sk) >= 0 on the range) -> S >= 0,  likewise <= 0 and == 0   (one skolem per application)
+      congruence     for every pair: equal bounds and bodies equal at a skolem index -> equal sums
+    All instances are valid statements about finite sums.  `done` carries state between calls: applications
+    and pairs already treated, and applications that only occur inside sign instances (these are not
+    expanded further, which keeps the instance set small: expansion follows congruence chains only)."""
     ax = []
-    done = set()
-    work = list(terms)
-    for _ in range(rounds):
-        apps = [a for a in sum_apps(work) if a.get_id() not in done]
-        if not apps:
-            break
-        new = []
-        for a in apps:
-            done.add(a.get_id())
-            d = SumDef.registry[a.decl().get_id()]
-            lo, hi = a.arg(0), a.arg(1)
-            new.append(z3.Implies(hi <= lo, a == 0))
+    done = set() if done is None else done
+    apps = sum_apps(terms)
+    fresh = [a for a in apps if ("signed", a.get_id()) not in done] if signs else []
+    sign_ax = []
+    for a in apps:
+        if ("empty", a.get_id()) not in done:
+            done.add(("empty", a.get_id()))
+            ax.append(z3.Implies(a.arg(1) <= a.arg(0), a == 0))
+    for a in fresh:
+        done.add(a.get_id())
+        done.add(("signed", a.get_id()))
+        d = SumDef.registry[a.decl().get_id()]
+        lo, hi = a.arg(0), a.arg(1)
+        sk = Fresh.int("sk")
+        b = d.body_at(a, sk)
+        rng = z3.And(lo <= sk, sk < hi)
+        sign_ax += [z3.Implies(z3.Implies(rng, b >= 0), a >= 0), z3.Implies(z3.Implies(rng, b <= 0), a <= 0),
+                    z3.Implies(z3.Implies(rng, b == 0), a == 0)]
+    # applications that appear only through sign instances: give them their own empty/sign axioms once,
+    # but never pair them (marked in `done` with a 'nopair' tag)
+    inner = [x for x in sum_apps(sign_ax) if x.get_id() not in done and ("empty", x.get_id()) not in done]
+    for x in inner:
+        done.add(x.get_id())
+        done.add(("nopair", x.get_id()))
+        d = SumDef.registry[x.decl().get_id()]
+        lo, hi = x.arg(0), x.arg(1)
+        sk = Fresh.int("sk")
+        b = d.body_at(x, sk)
+        rng = z3.And(lo <= sk, sk < hi)
+        sign_ax += [z3.Implies(hi <= lo, x == 0), z3.Implies(z3.Implies(rng, b >= 0), x >= 0), z3.Implies(z3.Implies(rng, b <= 0), x <= 0)]
+    for y in sum_apps(sign_ax):
+        if y.get_id() not in done:
+            done.add(y.get_id())
+            done.add(("nopair", y.get_id()))
+    pairable = [a for a in apps if ("nopair", a.get_id()) not in done] if pairs else []
+    for i, a in enumerate(pairable):
+        for c in pairable[i + 1:]:
+            key = (min(a.get_id(), c.get_id()), max(a.get_id(), c.get_id()))
+            if key in done:
+                continue
+            done.add(key)
+            # only sums over syntactically identical ranges are compared (keeps congruence chains from
+            # fanning out; a needed comparison over provably-but-not-syntactically equal ranges is lost: incomplete, sound)
+            if not (z3.simplify(a.arg(0)).eq(z3.simplify(c.arg(0))) and z3.simplify(a.arg(1)).eq(z3.simplify(c.arg(1)))):
+                continue
+            da = SumDef.registry[a.decl().get_id()]
+            dc = SumDef.registry[c.decl().get_id()]
             sk = Fresh.int("sk")
-            b = d.body_at(a, sk)
-            rng = z3.And(lo <= sk, sk < hi)
-            new.append(z3.Implies(z3.Implies(rng, b >= 0), a >= 0))
-            new.append(z3.Implies(z3.Implies(rng, b <= 0), a <= 0))
-            new.append(z3.Implies(z3.Implies(rng, b == 0), a == 0))
-        allapps = sum_apps(work)
-        for i, a in enumerate(allapps):
-            for c in allapps[i + 1:]:
-                key = (a.get_id(), c.get_id())
-                if key in done:
-                    continue
-                done.add(key)
-                da = SumDef.registry[a.decl().get_id()]
-                dc = SumDef.registry[c.decl().get_id()]
-                sk = Fresh.int("sk")
-                new.append(z3.Implies(
-                    z3.And(a.arg(0) == c.arg(0), a.arg(1) == c.arg(1),
-                           z3.Implies(z3.And(a.arg(0) <= sk, sk < a.arg(1)),
-                                      da.body_at(a, sk) == dc.body_at(c, sk))),
-                    a == c))
-        ax.extend(new)
-        work = new
-    return ax
+            ax.append(z3.Implies(
+                z3.And(a.arg(0) == c.arg(0), a.arg(1) == c.arg(1),
+                       z3.Implies(z3.And(a.arg(0) <= sk, sk < a.arg(1)),
+                                  da.body_at(a, sk) == dc.body_at(c, sk))),
+                a == c))
+    return ax + sign_ax
 
 
 def mentions(t, const_ids=(), func_ids=()):
@@ -649,10 +712,12 @@ def mentions(t, const_ids=(), func_ids=()):
                 did = x.decl().get_id()
                 if x.num_args() > 0 and did in func_ids:
                     return True
-                for reg_ in (SumDef.registry, ExtDef.registry, FirstDef.registry):
+                for reg_ in (SumDef.registry, ExtDef.registry, FirstDef.registry, ArgmaxDef.registry):
                     if did in reg_ and did not in seen_defs:
                         seen_defs.add(did)
                         stack.append(reg_[did].body)
+                        if reg_ is ArgmaxDef.registry:
+                            stack.append(reg_[did].valid)
     return False
 
 
@@ -777,34 +842,215 @@ def _abstract_nonlinear(fs):
     return out
 
 
-def instantiate_quantified(fs, cap=600):
-    """Ground instances of the universally quantified formulas in `fs` at the integer index terms
-    that occur as arguments of array / function applications (sound: instances of hypotheses)."""
+def _peel(f):
+    """f = A1 -> (A2 -> ... forall x. B)  ==>  ([A1, A2, ...], quantifier) or None"""
+    ants = []
+    while z3.is_implies(f):
+        ants.append(f.arg(0))
+        f = f.arg(1)
+    if z3.is_quantifier(f) and f.is_forall():
+        return ants, f
+    return None
+
+
+def index_terms(fs, limit=14):
+    """integer terms used as arguments of array / function applications, skolem-index terms first"""
     idx = {}
     for t in ground_subterms(fs).values():
         if z3.is_app(t) and t.num_args() > 0 and t.decl().kind() == z3.Z3_OP_UNINTERPRETED:
             for a in t.children():
-                if z3.is_int(a):
+                if z3.is_int(a) and not z3.is_int_value(a):
                     idx[a.get_id()] = a
-    terms = list(idx.values())
+    ts = list(idx.values())
+    ts.sort(key=lambda t: (0 if "sk" in str(t) else 1, len(str(t))))
+    return ts[:limit]
+
+
+def instantiate_quantified(fs, cap=600, seen=None, terms=None):
+    """Ground instances of the universally quantified formulas in `fs` (also those guarded by
+    implications, as produced by earlier instantiation of nested quantifiers) at the integer index
+    terms that occur as arguments of array / function applications.  Sound: instances of hypotheses."""
+    seen = set() if seen is None else seen
+    if terms is None:
+        terms = index_terms(fs, limit=40)
     out = []
+
+    def emit(ants, body):
+        r = body
+        for a in reversed(ants):
+            r = z3.Implies(a, r)
+        k = r.get_id()
+        if k not in seen:
+            seen.add(k)
+            out.append(r)
     for f in fs:
-        if not (z3.is_quantifier(f) and f.is_forall()):
+        pe = _peel(f)
+        if pe is None:
             continue
-        n = f.num_vars()
-        if n > 2 or any(f.var_sort(i) != IntS for i in range(n)):
+        ants, q = pe
+        n = q.num_vars()
+        if n > 2 or any(q.var_sort(i) != IntS for i in range(n)):
             continue
-        body = f.body()
+        body = q.body()
         if n == 1:
             for t in terms:
-                out.append(z3.substitute_vars(body, t))
+                emit(ants, z3.substitute_vars(body, t))
                 if len(out) >= cap:
                     return out
         else:
             small = terms[:12]
             for t1 in small:
                 for t2 in small:
-                    out.append(z3.substitute_vars(body, t1, t2))
+                    emit(ants, z3.substitute_vars(body, t1, t2))
                     if len(out) >= cap:
                         return out
+    return out
+
+
+# --------------------------------------------------------------------------- trigger based instantiation
+def _open_quantifier(f):
+    """A1 -> forall x. (A2 -> forall y. B)  ==>  (consts, antecedents, B) with the bound variables
+    replaced by fresh constants; None if f has no universal quantifier in that position"""
+    consts, ants = [], []
+    found = False
+    while True:
+        if z3.is_implies(f):
+            ants.append(f.arg(0))
+            f = f.arg(1)
+            continue
+        if z3.is_quantifier(f) and f.is_forall():
+            n = f.num_vars()
+            cs = [z3.Const(Fresh.name("pat"), f.var_sort(i)) for i in range(n)]
+            f = z3.substitute_vars(f.body(), *reversed(cs))
+            consts += cs
+            found = True
+            continue
+        break
+    if not found or not consts:
+        return None
+    return consts, ants, f
+
+
+def _pattern_arg(a, cids):
+    """a == c or a == c + k  ->  (c, k); ground -> None; else 'no'"""
+    if z3.is_const(a) and a.get_id() in cids:
+        return (a, 0)
+    if z3.is_app(a) and a.decl().kind() == z3.Z3_OP_ADD and a.num_args() == 2:
+        x, y = a.arg(0), a.arg(1)
+        if z3.is_int_value(x):
+            x, y = y, x
+        if z3.is_const(x) and x.get_id() in cids and z3.is_int_value(y):
+            return (x, y.as_long())
+    if z3.is_app(a) and a.decl().kind() == z3.Z3_OP_SUB and a.num_args() == 2:
+        x, y = a.arg(0), a.arg(1)
+        if z3.is_const(x) and x.get_id() in cids and z3.is_int_value(y):
+            return (x, -y.as_long())
+    if not any(c.get_id() in cids for c in free_consts(a)):
+        return None
+    return "no"
+
+
+def ematch(hyps, ground, seen, cap=400, per_hyp=40):
+    """Instances of the universally quantified hypotheses obtained by matching their array / function
+    applications against the ground applications occurring in `ground` (classic trigger-based
+    instantiation, done here because the lemma-schema instances for Sum terms are generated by us
+    and must see the instantiated bodies).  Sound: every result is an instance of a hypothesis."""
+    defined = defined_function_ids()
+    gapps = {}
+    for t in ground_subterms(ground).values():
+        if z3.is_app(t) and t.num_args() > 0 and t.decl().kind() == z3.Z3_OP_UNINTERPRETED and t.decl().get_id() not in defined:
+            gapps.setdefault(t.decl().get_id(), {})[t.get_id()] = t
+    out = []
+    for h in hyps:
+        op = _open_quantifier(h)
+        if op is None:
+            continue
+        consts, ants, body = op
+        cids = {c.get_id() for c in consts}
+        # candidate patterns
+        pats = []
+        scan = [body] + ants
+        for root in scan:
+            for t in subterms(root).values():
+                if z3.is_app(t) and t.num_args() > 0 and t.decl().kind() == z3.Z3_OP_UNINTERPRETED and t.decl().get_id() not in defined:
+                    args = [_pattern_arg(a, cids) for a in t.children()]
+                    if any(a == "no" for a in args) or not any(isinstance(a, tuple) for a in args):
+                        continue
+                    pats.append((t, args))
+        if not pats:
+            continue
+        # partial assignments from every pattern x ground application
+        partial = []
+        for t, args in pats:
+            for g in gapps.get(t.decl().get_id(), {}).values():
+                asg = {}
+                ok = True
+                for a, ga, pa in zip(args, g.children(), t.children()):
+                    if a is None:
+                        if not pa.eq(ga):
+                            ok = False
+                            break
+                        continue
+                    c, k = a
+                    val = ga if k == 0 else z3.simplify(ga - k)
+                    if c.get_id() in asg and not asg[c.get_id()][1].eq(val):
+                        ok = False
+                        break
+                    asg[c.get_id()] = (c, val)
+                if ok and asg:
+                    partial.append(asg)
+        # join partial assignments until all variables are covered
+        full = []
+        seen_asg = set()
+
+        def key(asg):
+            return tuple(sorted((k, v[1].get_id()) for k, v in asg.items()))
+
+        work = []
+        for a in partial:
+            k = key(a)
+            if k not in seen_asg:
+                seen_asg.add(k)
+                work.append(a)
+        rounds = 0
+        while work and rounds < 3:
+            rounds += 1
+            nxt = []
+            for a in work:
+                if len(a) == len(consts):
+                    full.append(a)
+                    continue
+                for b in partial:
+                    if any(k in a and not a[k][1].eq(v[1]) for k, v in b.items()):
+                        continue
+                    if all(k in a for k in b):
+                        continue
+                    m = dict(a)
+                    m.update(b)
+                    k = key(m)
+                    if k not in seen_asg:
+                        seen_asg.add(k)
+                        nxt.append(m)
+                    if len(nxt) > 600:
+                        break
+            work = nxt
+        for a in work:
+            if len(a) == len(consts):
+                full.append(a)
+        emitted = 0
+        for a in full:
+            if emitted >= per_hyp:
+                break
+            subs = [a[c.get_id()] for c in consts]
+            r = z3.substitute(body, *subs)
+            for an in reversed(ants):
+                r = z3.Implies(z3.substitute(an, *subs), r)
+            k = r.get_id()
+            if k in seen:
+                continue
+            seen.add(k)
+            out.append(r)
+            emitted += 1
+            if len(out) >= cap:
+                return out
     return out
